@@ -9,12 +9,13 @@ import common as C
 PID = "C15"
 DRIVER = [("C15", ["TfPwaV.Gen.LineShapeF", "TfPwaV.Model.Bessel"], "(LineShapeF.handle rest).orElse fun _ => Bessel.handle rest"),
           ("C15x", "TfPwaV.Gen.LineShapeXF", "LineShapeF.handleX"),
-          ("C15i", "TfPwaV.Gen.InterpAmpF", "InterpAmpF.handle")]
-LEAN_TARGETS = ["TfPwaV.Props.C15", "TfPwaV.Props.C15b", "TfPwaV.Props.C15c", "TfPwaV.Props.C15d", "TfPwaV.Gen.LineShapeF", "TfPwaV.Gen.LineShapeXF",
-                "TfPwaV.Gen.InterpAmpF", "TfPwaV.Model.Bessel"]
-PROP_MODULES = ["TfPwaV.Props.C15", "TfPwaV.Props.C15b", "TfPwaV.Props.C15c", "TfPwaV.Props.C15d"]
+          ("C15i", "TfPwaV.Gen.InterpAmpF", "InterpAmpF.handle"),
+          ("C15e", "TfPwaV.Gen.LineShapeEF", "LineShapeF.handleE")]
+LEAN_TARGETS = ["TfPwaV.Props.C15", "TfPwaV.Props.C15b", "TfPwaV.Props.C15c", "TfPwaV.Props.C15d", "TfPwaV.Props.C15e", "TfPwaV.Gen.LineShapeF",
+                "TfPwaV.Gen.LineShapeXF", "TfPwaV.Gen.LineShapeEF", "TfPwaV.Gen.InterpAmpF", "TfPwaV.Model.Bessel"]
+PROP_MODULES = ["TfPwaV.Props.C15", "TfPwaV.Props.C15b", "TfPwaV.Props.C15c", "TfPwaV.Props.C15d", "TfPwaV.Props.C15e"]
 ALL_MODULES = ["TfPwaV.Model.Bessel", "TfPwaV.Proofs.LineShape", "TfPwaV.Props.C15", "TfPwaV.Props.C15b", "TfPwaV.Props.C15c", "TfPwaV.Props.C15d",
-               "TfPwaV.Proofs.ScalarR"]
+               "TfPwaV.Props.C15e", "TfPwaV.Proofs.ScalarR"]
 ASSUMPTIONS = [
     "IEEE double evaluation of the same formula text (Lean Float vs TensorFlow) agrees to 1e-10 relative to |value| (observed worst 5e-13); inputs where |P_L(z)| < 1e-4 sum|c_i z^i| (near a real zero of the Blatt-Weisskopf polynomial at negative q^2) are counted as ill-conditioned and skipped; mass grids stay >= 1.5e-3 (relative) away from two-body thresholds",
     "theorems are over the reals (Mathlib R and C) with Lean's totalised division: at an exactly vanishing denominator both sides of an `_eq_spec` theorem are 0 while IEEE gives NaN/inf; such inputs are outside the claim (hypotheses name the denominator where a theorem needs it)",
@@ -27,6 +28,7 @@ ASSUMPTIONS = [
     "interpolation family: the Float correspondence evaluates Particle.__call__ on seeded uniform (min_m/max_m/interp_N) and non-uniform (points=) node sets, at the nodes themselves for the models with explicit comparisons (interp, interp_c, interp_hist, interp1d3, interp_l3, interp_lagrange, spline_c); the index-based models (hist_idx, spline_c_idx, sppchip, linear_npy/txt) stay 1e-6 (relative) off the nodes because tf.histogram_fixed_width_bins rounds (m - lo)/width and tf.raw_ops.Bucketize keeps its `boundaries` attribute in float32 (node positions rounded at 6e-8) - the bin lookup itself (Bucketize / histogram_fixed_width_bins) is modelled as 'number of nodes <= m' and is NOT verified at the nodes; errors of interpolants are measured relative to max(|value|, max |node value|) (they pass through zero). hist_idx outside the node range wraps around (not documented; correspondence only); with_bound=True is exercised for spline_c / spline_c_idx only (interp_c, interp_hist, interp1d3, interp_lagrange raise a shape error and hist_idx an index error with it - configuration errors, not values)",
     "spline tables: spline_xi_matrix is run on 5 small-rational node sets (4, 5, 6, 8 uniform nodes and 6 non-uniform); each float64 entry is replaced by the nearest rational with denominator <= 1e7 (distance < 1e-11 checked on every run, else broke) and the Lean theorems spline_tables_ok / splineC_at_nodes are about these rationals; np.linalg.inv inside spline_xi_matrix and the seeded node sets of the correspondence are covered by the scipy CubicSpline(bc_type='not-a-knot') oracle at 2e-9 only",
     "registry inventory: every module of tf_pwa.amp is imported and config.get_config('particle_model') is read, plus a textual scan of tf_pwa/**/*.py for @register_particle / @regist_particle / @simple_resonance decorators with a literal name; a model registered under a computed name in a module outside tf_pwa.amp that nobody imports is not seen",
+    "round 5 (KMatrixSplitLS, KmatrixSimple with 3 channels, FlatteGen/Flatte2 sympy denominators, GS below 2 m_pi, hist_idx outside, interp_l3): the Lean KMatrixSplitLS1/2 mirror the CODE of get_ls_amp (not its docstring) for one and two partial waves and any number of poles (correspondence: 1-3 poles, l <= 3, worst 1.5e-13); tf.linalg.inv is replaced by 1/x, the 2x2 adjugate and Cramer's rule (3 channels of KmatrixSimple) - agreement at 1e-10 on grids 2e-2 away from poles/thresholds; `x ** (l/2)` is modelled as x^(l div 2) [* sqrt x]; three or more partial waves of KMatrixSplitLS and four or more channels of KmatrixSimple are outside the Lean model (KmatrixSimple: numpy oracle only). get_sympy_dom of FlatteGen/Flatte2 is evaluated with sympy.lambdify(numpy) with EVERY parameter complex (principal root for q_i0 of a channel closed at m0), sheet = all bits set, real m only: poles at complex mass are outside the model. KMatrixSingleChannel: the sympy expression `symbol` and numerator/denominator of sympy.fraction(symbol) are evaluated by numpy and compared with get_amp (2e-9); that the pole equation of a pole search is `denominator = 0` at complex m is not modelled (for real m the denominator never vanishes: KMatrixSingle_den_ne_zero). GS below the two-pion threshold: the theorem needs |d2 - d3| <= m <= d2 + d3 and m0 above threshold; m0 at/below threshold divides by k(m0) = 0 (NaN in the implementation) - outside the claim. hist_idx outside the node range and interp_l3 have no documented behaviour: the theorems state what the code does (wrap-around to the opposite end bin; parameter t at the mid point of bin t), interp_l3 / hist_idx bins exactly on 6 rational node sets (decide +kernel) and for all node lists outside the range",
 ]
 LMAX = 8
 TOL_X = 1e-10   # Lean Float vs implementation (same formula text; observed worst 5e-13)
@@ -367,6 +369,8 @@ def observe():
     import c15_x
     obs = {"bwr2_fixed": bwr2_is_fixed(), "gs32": gs_is_f32(), "cp32": coupling_is_f32()}
     obs.update(c15_x.observe_x())  # multibw_bw, i1d3_fixed
+    import c15_e
+    obs.update(c15_e.observe_e())  # kms_matvec, fg_dom_cut
     return obs
 
 
@@ -719,6 +723,9 @@ def make_cases(seed, quick, obs):
     pcs = list(cases_for(rng, quick, obs))
     import c15_x
     pcs += c15_x.cases_x(seed, quick, obs, obs)  # round 3: the rest of the registry (own generators: earlier cases unchanged)
+    import c15_e
+    pcs += c15_e.cases_e(seed, quick, obs)  # round 5: KMatrixSplitLS, FlatteGen/Flatte2 sympy denominators, ... (own generators)
+    fcs += c15_e.fcases_e(seed, quick, obs)
     return fcs, pcs
 
 
@@ -731,6 +738,9 @@ def correspond(ctx, res):
     res.notes.append("MultiBW.get_ls_amp uses %s; get_matrix_interp1d3 stencil loop %s" % (
         "BW (documented)" if obs["multibw_bw"] else "BWR2 (inherited from MultiBWR; dom_fun never called)",
         "range(i-2, i+2)" if obs["i1d3_fixed"] else "range(i-1, i+3) (node i attached to the wrong intervals)"))
+    res.notes.append("KMatrixSplitLS combines K_inv and P as %s; FlatteGen.get_sympy_dom %s cut_phsp" % (
+        "a matrix-vector product" if obs["kms_matvec"] else "P_j x (column sum j of K_inv) (reduce_sum over axis=1)",
+        "applies" if obs["fg_dom_cut"] else "ignores"))
     import c15_x
     c15_x.inventory(res)
     fcs, pcs = make_cases(ctx.seed + 15, ctx.quick, obs)
@@ -945,6 +955,16 @@ def search(ctx, res):
                 fail(key or ("%s:value" % c["model"]), "%s %s: cfg %s m=%r component %d impl %s documented %s (rel %.3g)" % (
                     c["model"], what, c["cfg"], float(c["m"][i]), j, iv[i], sp[i], e),
                     {"kind": "particle", "model": c["model"], "cfg": c["cfg"], "m": float(c["m"][i]), "component": j})
+        # extra statements on the implementation attached to a case (round 5): got = want on `sel`
+        for ck in c.get("checks", []):
+            sel = ck.get("sel")
+            r = judge(ck["got"], ck["want"], ck.get("variants", []), None, sel, track=False)
+            nchk += len(ck["got"]) if sel is None else int(np.sum(sel))
+            if r is not None:
+                key, i, e, what = r
+                fail(key or ck["key"], "%s: %s%s: cfg %s m=%r got %s expected %s (rel %.3g)" % (
+                    c["model"], ck["what"], "" if key is None else " - " + what, c["cfg"], float(c["m"][i]), ck["got"][i], ck["want"][i], e),
+                    {"kind": "check", "model": c["model"], "cfg": c["cfg"], "m": float(c["m"][i]), "check": ck["key"]})
         # Breit-Wigner family claims: Im > 0 for Gamma0 > 0, value at m0 is i/(m0 Gamma0)
         if c.get("family"):
             iv = c["impl"][0]
@@ -1010,7 +1030,7 @@ def replay(ctx, payload):
 
 
 MANIFEST = {
-    "text": "Lean theorems over the reals / Mathlib complex numbers for ALL masses, widths, momenta, radii and every L<=8 (and any number of partial waves / channels / resonances / poles), stated for the functions the current tree implements (BWR2 after repository commit a7b0d13, double-precision constants after 6f9a2f7): the Blatt-Weisskopf coefficient tables of breit_wigner.py and formula.py, re-extracted by running the real functions on every run, equal |theta_L(i w)|^2 of the reverse Bessel polynomial (exact integers, decide +kernel; plus BprimePolynomial(w^2) = normSq theta_L(i w) in C); Bprime(q0,q0)=1, Bprime_q2 = Bprime above threshold and positive below, Gamma = documented formula, Gamma(m0)=Gamma0; BW, BWR, BWR2, BWR_below, BWR_normal (principal root), BWR_coupling, BWR_LS(fix_bug1), MultiBWR, Flatte, FlatteC, exp, exp_com, one, x and GS_rho (including h, dh/dm^2, D, f of its docstring; dh_dsFun = d hFun/ds as HasDerivAt for equal daughter masses) equal their docstring formula as complex numbers; Im>0 and value i/(m0 Gamma0) at m0 for BW/BWR/BWR2; line shape x sympy denominator = 1 for BW, BWR, BWR_coupling, Flatte, FlatteC (all sheet bits set, real m above and below channel thresholds) and BWR_LS_dom = numeric denominator. Kept refutations: the BWR2 of the tree before a7b0d13 is PROVED to be the complex conjugate of the documented formula (BWR2legacy_*), and BWR_LS without fix_bug1 (the default, listed finding) to differ from its documentation. ROUND 3 (Props/C15c, C15d; every other registered model): FlatteGen / Flatte2 = 1/(m0^2 - m^2 + im_sign sum_i term_i) for every option setting and any number of channels, the default term = i g (q_i/m) m0 (m0/|q_i0|)(|q_i|/|q_i0|)^(2l) B_l'^2 (L<=8), cut_phsp term = 0 below the channel threshold and code/doc condition equivalent for m > |ma-mb|; LASS = m/(q cot d_B - i q) + e^(2 i d_B) m0 G0 (m0/q0)/((m0^2-m^2) - i m0 G0 (q/m)(m0/q0)) with |e^(2 i d_B)| = 1; MultiBW of the current tree is PROVED identical to MultiBWR (running width; listed finding) and the repaired one equals sum_k c_ik/(m_k^2 - m^2 - i m_k G_k) x barrier; Kmatrix = (beta0 + sum beta_i m_i G_i/(m_i^2-m^2))/(1 - i(K+alpha)) + KNR; KMatrixSingleChannel = P/(1 - iK) with every pole of K equal to m_i Gamma_i(m)/(m_i^2-m^2) (the running width of breit_wigner.Gamma), Im R = K Re R for real production couplings (any number of poles), elastic unitarity Im T = rho |T|^2 for T = K/(1 - i rho K); KmatrixSimple: K_ij = sum_a g_ia g_ja/(m_a^2 - s - i eps), one channel R = n P/(1 - i K rho n^2), two channels R_i = n_i x_i with (1 - i K rho n^2) x = P (adjugate solution proved to solve the system), the barrier factor is (q d)^l B'_l(q,1/d,d) (the docstring's q^l is a listed finding). Interpolation family: interp_c, interp_hist, interp1d3 / interp_l3, interp_lagrange, spline_c are linear in the node values for every node list and mass (R); on 6 exact rational node sets (4..8 nodes, uniform and non-uniform, decide +kernel over core Rat): the weights at the nodes are unit vectors (the interpolant passes through every choice of node values) and vanish outside the node range, the repaired interp1d3 stencil reproduces 1, x, x^2, x^3 while the stencil of the current tree is PROVED not to reproduce constants (weights sum to 17/16; listed finding); the spline coefficient tables spline_xi_matrix(nodes) re-extracted from the tree on every run satisfy the defining equations of the not-a-knot cubic spline exactly (interpolation, C1, C2, third-derivative continuity at the 2nd and last-but-one knot) and spline_c evaluated through them passes through the nodes; linear_npy is zero outside the node range. A registry inventory on every run reports any registered particle model that is neither modelled nor on the explicit no-documented-formula list.",
-    "note": "Model = templates/LineShape.lean.in + templates/LineShapeX.lean.in (round 3, same namespace) instantiated at R (proofs) and Float (execution), templates/InterpAmp.lean.in instantiated at R, Float and core Rat. Tie to the code: (T) coefficient tables (Blatt-Weisskopf, spline_xi_matrix) extracted by running the real functions, theorems re-checked by lake build each run; (C) every tf_pwa.breit_wigner function, amp.core helpers, Particle.__call__/get_amp/get_ls_amp of 35 registered models (round 1/2: BW, BWR, default, BWR2, BWR_below, BWR_normal, BWR_coupling, BWR_LS, BWR_LS2, MultiBWR, GS_rho, Flatte, FlatteC, one, exp, exp_com, x; round 3: Flatte2, FlatteGen, LASS, MultiBW, Kmatrix, KMatrixSingleChannel, KmatrixSimple, interp, interp_c, interp_hist, hist_idx, interp1d3, interp_l3, interp_lagrange, linear_npy, linear_txt, spline_c, spline_c_idx) and 7 sympy denominators against the Float instance at 1e-10 on seeded grids (observed worst 8e-15 for the round-3 models); (S) an independent numpy/scipy evaluation of every docstring formula against the implementation at 2e-9 (scipy CubicSpline not-a-knot, PchipInterpolator, np.interp, own Lagrange / K-matrix linear solves). The harness observes which variant the tree implements (BWR2 conjugated or not, float32 constants or not, MultiBW calling dom_fun or not, interp1d3 stencil range, KmatrixSimple docstring) and compares with that Lean variant, so the same check follows the tree before and after the repairs; they are now fix commits in /repo (babc852 MultiBW dom_fun, 96ef8f5 interp1d3 stencil, 6928971 sppchip PCHIP rule, 6ef67d1 KmatrixSimple docstring, 20c9246 Bprime_q2 q0 dtype; kind 'fixed' in known_findings.jsonl, suppressing nothing: a reverted repair is reported under its own key). Validated only (oracle, no Lean model): KMatrixSplitLS (does not follow its docstring: listed finding), sppchip (scipy PchipInterpolator oracle; the three deviations were repaired by 6928971), KmatrixSimple with >= 3 channels, hist_idx outside the node range, interp_l3 (no docstring; correspondence only). No documented closed formula (listed with a reason, not checked): Kpi_Swave, pipi_Swave (AmpGen ports). Not verified: Float rounding, TensorFlow kernels (linalg.inv, Bucketize, histogram_fixed_width_bins), sympy (together/cse of KMatrix_single), np.linalg.inv inside spline_xi_matrix beyond the 5 extracted node sets, how get_amp collects momenta/masses from the decay chain for BWR_below / Kmatrix (correspondence only), GS at/below the two-pion threshold, sympy denominators of FlatteGen/Flatte2.",
+    "text": "Lean theorems over the reals / Mathlib complex numbers for ALL masses, widths, momenta, radii and every L<=8 (and any number of partial waves / channels / resonances / poles), stated for the functions the current tree implements (BWR2 after repository commit a7b0d13, double-precision constants after 6f9a2f7): the Blatt-Weisskopf coefficient tables of breit_wigner.py and formula.py, re-extracted by running the real functions on every run, equal |theta_L(i w)|^2 of the reverse Bessel polynomial (exact integers, decide +kernel; plus BprimePolynomial(w^2) = normSq theta_L(i w) in C); Bprime(q0,q0)=1, Bprime_q2 = Bprime above threshold and positive below, Gamma = documented formula, Gamma(m0)=Gamma0; BW, BWR, BWR2, BWR_below, BWR_normal (principal root), BWR_coupling, BWR_LS(fix_bug1), MultiBWR, Flatte, FlatteC, exp, exp_com, one, x and GS_rho (including h, dh/dm^2, D, f of its docstring; dh_dsFun = d hFun/ds as HasDerivAt for equal daughter masses) equal their docstring formula as complex numbers; Im>0 and value i/(m0 Gamma0) at m0 for BW/BWR/BWR2; line shape x sympy denominator = 1 for BW, BWR, BWR_coupling, Flatte, FlatteC (all sheet bits set, real m above and below channel thresholds) and BWR_LS_dom = numeric denominator. Kept refutations: the BWR2 of the tree before a7b0d13 is PROVED to be the complex conjugate of the documented formula (BWR2legacy_*), and BWR_LS without fix_bug1 (the default, listed finding) to differ from its documentation. ROUND 3 (Props/C15c, C15d; every other registered model): FlatteGen / Flatte2 = 1/(m0^2 - m^2 + im_sign sum_i term_i) for every option setting and any number of channels, the default term = i g (q_i/m) m0 (m0/|q_i0|)(|q_i|/|q_i0|)^(2l) B_l'^2 (L<=8), cut_phsp term = 0 below the channel threshold and code/doc condition equivalent for m > |ma-mb|; LASS = m/(q cot d_B - i q) + e^(2 i d_B) m0 G0 (m0/q0)/((m0^2-m^2) - i m0 G0 (q/m)(m0/q0)) with |e^(2 i d_B)| = 1; MultiBW of the current tree is PROVED identical to MultiBWR (running width; listed finding) and the repaired one equals sum_k c_ik/(m_k^2 - m^2 - i m_k G_k) x barrier; Kmatrix = (beta0 + sum beta_i m_i G_i/(m_i^2-m^2))/(1 - i(K+alpha)) + KNR; KMatrixSingleChannel = P/(1 - iK) with every pole of K equal to m_i Gamma_i(m)/(m_i^2-m^2) (the running width of breit_wigner.Gamma), Im R = K Re R for real production couplings (any number of poles), elastic unitarity Im T = rho |T|^2 for T = K/(1 - i rho K); KmatrixSimple: K_ij = sum_a g_ia g_ja/(m_a^2 - s - i eps), one channel R = n P/(1 - i K rho n^2), two channels R_i = n_i x_i with (1 - i K rho n^2) x = P (adjugate solution proved to solve the system), the barrier factor is (q d)^l B'_l(q,1/d,d) (the docstring's q^l is a listed finding). Interpolation family: interp_c, interp_hist, interp1d3 / interp_l3, interp_lagrange, spline_c are linear in the node values for every node list and mass (R); on 6 exact rational node sets (4..8 nodes, uniform and non-uniform, decide +kernel over core Rat): the weights at the nodes are unit vectors (the interpolant passes through every choice of node values) and vanish outside the node range, the repaired interp1d3 stencil reproduces 1, x, x^2, x^3 while the stencil of the current tree is PROVED not to reproduce constants (weights sum to 17/16; listed finding); the spline coefficient tables spline_xi_matrix(nodes) re-extracted from the tree on every run satisfy the defining equations of the not-a-knot cubic spline exactly (interpolation, C1, C2, third-derivative continuity at the 2nd and last-but-one knot) and spline_c evaluated through them passes through the nodes; linear_npy is zero outside the node range. A registry inventory on every run reports any registered particle model that is neither modelled nor on the explicit no-documented-formula list. ROUND 5 (Props/C15e, 32 theorems): KMatrixSplitLS - kmatrix_split_ls_value: for one pole and one partial wave (every l, all parameter values with a real phase-space root) the CODE evaluates m1 G1 f Re(beta)/(m1^2 - m^2 - i 1e-4 - i sqrt((p/m)(m1/p1)) G1 f^2 bf^2), bf = (p/p1)^(l/2) Bprime_q2(l, p, p1, d); kmatrix_split_ls_ne_doc: this is PROVED different from the docstring form beta m1 G1/(m1^2 - m^2 - i m1 Gamma(m)) on a real witness (code 2/(3 - (2+eps) i), docstring 2/(3 - 8 i)); for two partial waves the last line of get_ls_amp is PROVED (for every matrix and vector) to return P_j x (column sum j of the inverse) - a wave with P_j = 0 gets exactly zero amplitude - and PROVED not to solve M x = P on a witness (second listed finding with a one-token repair); the repaired variant solves M x = P for the code's M and P (any number of poles); M is symmetric. KmatrixSimple: Cramer's rule solves the 3x3 system (solve3_correct), KmatrixSimple3 = n_i x_i with (1 - i K rho n^2) x = P; one pole, one channel, no background: R = n beta g/(m_a^2 - m^2 - i eps - i g^2 rho n^2) (Breit-Wigner/Flatte reduction). KMatrixSingleChannel: 1 - iK never vanishes for real m (no pole on the real axis); one pole = beta m1 G1 x BWR (running width, L <= 8). get_sympy_dom of FlatteGen / Flatte2 (all sheet bits set, real m > 0 above and below the channel thresholds, every option setting, any number of channels, l <= 8) x numeric line shape = 1 when cut_phsp = False or when the denominator applies the cut; the denominator of the CURRENT tree is PROVED not to depend on cut_phsp at all (third listed finding; witness: numeric channel term 0, symbolic term -sqrt(3)/2). GS at/below the two-pion threshold (m0 above): hFun = 0 and GS = the documented formula with q(m) := 0 inside f(m) (the code's branch choice, not the analytic continuation). hist_idx outside the node range (every node list): below the first node the value of the LAST bin, at/above the last node the value of the FIRST bin (wrap-around); bins inside the range exact on 6 rational node sets. interp_l3: on the 6 rational node sets the weights at the mid point of bin t are the unit vector e_t (the interpolant passes through parameter t there, for every choice of parameters), zero at the last bin's mid point and outside.",
+    "note": "Model = templates/LineShape.lean.in + templates/LineShapeX.lean.in (round 3, same namespace) instantiated at R (proofs) and Float (execution), templates/InterpAmp.lean.in instantiated at R, Float and core Rat. Tie to the code: (T) coefficient tables (Blatt-Weisskopf, spline_xi_matrix) extracted by running the real functions, theorems re-checked by lake build each run; (C) every tf_pwa.breit_wigner function, amp.core helpers, Particle.__call__/get_amp/get_ls_amp of 35 registered models (round 1/2: BW, BWR, default, BWR2, BWR_below, BWR_normal, BWR_coupling, BWR_LS, BWR_LS2, MultiBWR, GS_rho, Flatte, FlatteC, one, exp, exp_com, x; round 3: Flatte2, FlatteGen, LASS, MultiBW, Kmatrix, KMatrixSingleChannel, KmatrixSimple, interp, interp_c, interp_hist, hist_idx, interp1d3, interp_l3, interp_lagrange, linear_npy, linear_txt, spline_c, spline_c_idx) and 7 sympy denominators against the Float instance at 1e-10 on seeded grids (observed worst 8e-15 for the round-3 models); (S) an independent numpy/scipy evaluation of every docstring formula against the implementation at 2e-9 (scipy CubicSpline not-a-knot, PchipInterpolator, np.interp, own Lagrange / K-matrix linear solves). The harness observes which variant the tree implements (BWR2 conjugated or not, float32 constants or not, MultiBW calling dom_fun or not, interp1d3 stencil range, KmatrixSimple docstring) and compares with that Lean variant, so the same check follows the tree before and after the repairs; they are now fix commits in /repo (babc852 MultiBW dom_fun, 96ef8f5 interp1d3 stencil, 6928971 sppchip PCHIP rule, 6ef67d1 KmatrixSimple docstring, 20c9246 Bprime_q2 q0 dtype; kind 'fixed' in known_findings.jsonl, suppressing nothing: a reverted repair is reported under its own key). Round 5 (templates/LineShapeE.lean.in, harness/c15_e.py, Props/C15e): KMatrixSplitLS (the code as it is, 1-2 partial waves x 1-3 poles), KmatrixSimple with 3 channels, get_sympy_dom of FlatteGen/Flatte2, GS below 2 m_pi, interp_l3 at the bin mid points are now in the Float correspondence (1e-10; observed worst 1.5e-13) AND the oracle search; the harness observes whether get_ls_amp of KMatrixSplitLS forms a matrix-vector product and whether FlatteGen.get_sympy_dom applies cut_phsp, and drives that Lean variant (check exits 0 on the tree before and after fixes/C15-fix_kmatrix_split_ls_matvec.diff). Listed findings kept: KMatrixSplitLS:differs-from-docstring (sharpened: see kmatrix_split_ls_value; reconciling sqrt(rho), the missing m_i, q vs q^2, eps = 1e-4 and Re(beta) is a physics decision of the authors, not a small patch), NEW KMatrixSplitLS:inverse-times-P-not-matvec (patch proposed, tests green), NEW FlatteGen:sympy-dom:cut_phsp-ignored (no patch: Heaviside of a complex mass in the pole search needs a convention of the authors). Validated only (oracle, no Lean model): sppchip (scipy PchipInterpolator oracle; the three deviations were repaired by 6928971), KmatrixSimple with >= 4 channels (not generated), KMatrixSplitLS with >= 3 partial waves (not generated), the sympy expression of KMatrixSingleChannel (numpy evaluation vs get_amp). No documented closed formula and no structural claim in the docstring (only links to the AmpGen C++ sources; listed with a reason, not checked): Kpi_Swave, pipi_Swave. Not verified: Float rounding, TensorFlow kernels (linalg.inv, Bucketize, histogram_fixed_width_bins), sympy (together/cse of KMatrix_single), np.linalg.inv inside spline_xi_matrix beyond the 5 extracted node sets, how get_amp collects momenta/masses from the decay chain for BWR_below / Kmatrix (correspondence only), GS with the resonance mass m0 at/below the two-pion threshold (division by k(m0) = 0), poles at complex mass (all sympy denominators are checked for real m only).",
     "technique": "Lean 4 proof over R and C of templates instantiated at Float for differential correspondence with the implementation and at core Rat for exact decide +kernel checks; translator-extracted tables (Blatt-Weisskopf coefficients, spline matrices) checked by decide +kernel; registry inventory",
 }
